@@ -35,6 +35,7 @@ type schedule struct {
 	HotSites []int   `json:"hot_sites,omitempty"`
 	Order    []int   `json:"order,omitempty"`
 	Grants   []grant `json:"grants,omitempty"`
+	PoolSeed uint64  `json:"pool_seed,omitempty"`
 }
 
 type schedPlan struct {
@@ -58,6 +59,8 @@ type schedStats struct {
 	PreemptInBuild    int   `json:"preempted_inside_once_func"`
 	OtherStepsInBuild int64 `json:"steps_by_other_tasks_while_a_once_ran"`
 	LockAcquires      int   `json:"lock_acquisitions"`
+	CondWaits         int   `json:"cond_waits"`
+	PoolDrops         int64 `json:"pool_items_dropped"`
 	ExplicitFallbacks int   `json:"explicit_fallbacks"`
 }
 
@@ -90,9 +93,9 @@ type c12Engine struct {
 }
 
 type schedVerdict struct {
-	Class  string
-	Key    string
-	Detail string
+	Class        string
+	Key          string
+	Detail       string
 	Inconclusive string // stall / stepcap: infrastructure, never a verdict
 }
 
@@ -348,7 +351,7 @@ func (g *c12Engine) explicitOf(sp *schedPlan) (*schedPlan, error) {
 	}
 	ex := *sp
 	ex.Record = ""
-	ex.Schedule = schedule{Mode: "explicit", Grants: gs}
+	ex.Schedule = schedule{Mode: "explicit", Grants: gs, PoolSeed: sp.Schedule.PoolSeed}
 	return &ex, nil
 }
 
@@ -582,6 +585,9 @@ func genSchedPlan(seed uint64, pool []plan.Op, byLang map[int][]int, neutral []i
 		sc.Policy = "serial"
 		sc.Order = r.Perm(len(sp.Tasks))
 	}
+	if r.Intn(3) == 0 { // fault: a sync.Pool in the code under test drops what is Put into it
+		sc.PoolSeed = r.Uint64() | 1
+	}
 	sp.Schedule = sc
 	return sp
 }
@@ -647,7 +653,11 @@ func CheckC12(e *Env) (int, error) {
 		defer wg.Done()
 		for {
 			mu.Lock()
-			if stop || next >= maxRuns || time.Now().After(deadline) || len(viols) >= 12 {
+			incl := 0
+			for _, c := range inconclusive {
+				incl += c
+			}
+			if stop || next >= maxRuns || time.Now().After(deadline) || len(viols) >= 12 || incl >= 6 {
 				mu.Unlock()
 				return
 			}
@@ -701,6 +711,8 @@ func CheckC12(e *Env) (int, error) {
 				tot.PreemptInBuild += st.PreemptInBuild
 				tot.OtherStepsInBuild += st.OtherStepsInBuild
 				tot.LockAcquires += st.LockAcquires
+				tot.CondWaits += st.CondWaits
+				tot.PoolDrops += st.PoolDrops
 				if out.Foreign > 0 {
 					probes["runs_with_unscheduled_goroutines_of_the_library"]++
 				}
@@ -791,32 +803,32 @@ func CheckC12(e *Env) (int, error) {
 		fmt.Println("PROBE-ZERO C12: preemption between Do returning and the map read")
 	}
 	cov := map[string]interface{}{
-		"evaluations":         runs,
-		"distinct_nontrivial": len(ntDigests),
-		"rule":                "a case = one fresh race-built process running 2-8 caller goroutines x 1-4 calls under one seeded schedule (random walk with mean gap 1..5000, PCT with 1-3 priority change points, hot-site preemption, or serial), preemption possible before every statement of package bip39, at every sync.Once/lock operation and at every read of the simulated device. Non-trivial: >= 2 tasks entered the same language's sync.Once and a task was preempted inside the table construction or blocked on the running Once (or, for lock-based trees, a task blocked on a held lock). Distinct: by run digest (every (task, site) step, every scheduler event, every outcome).",
-		"exhaustive":          false,
-		"samples":             samples,
-		"runs":                runs,
-		"nontrivial_runs":     nontrivial,
-		"distinct_schedules":  len(digests),
-		"sim_steps_total":     tot.Steps,
-		"sim_time_note":       "no clock in the system; simulated time is counted in scheduler steps (statement-level yields)",
-		"scheduler_totals":    tot,
-		"policies":            policies,
-		"yield_sites":         len(rep.Sites),
-		"yield_sites_executed": len(siteHit),
+		"evaluations":                            runs,
+		"distinct_nontrivial":                    len(ntDigests),
+		"rule":                                   "a case = one fresh race-built process running 2-8 caller goroutines x 1-4 calls under one seeded schedule (random walk with mean gap 1..5000, PCT with 1-3 priority change points, hot-site preemption, or serial), preemption possible before every statement of package bip39, at every sync.Once/lock operation and at every read of the simulated device. Non-trivial: >= 2 tasks entered the same language's sync.Once and a task was preempted inside the table construction or blocked on the running Once (or, for lock-based trees, a task blocked on a held lock). Distinct: by run digest (every (task, site) step, every scheduler event, every outcome).",
+		"exhaustive":                             false,
+		"samples":                                samples,
+		"runs":                                   runs,
+		"nontrivial_runs":                        nontrivial,
+		"distinct_schedules":                     len(digests),
+		"sim_steps_total":                        tot.Steps,
+		"sim_time_note":                          "no clock in the system; simulated time is counted in scheduler steps (statement-level yields)",
+		"scheduler_totals":                       tot,
+		"policies":                               policies,
+		"yield_sites":                            len(rep.Sites),
+		"yield_sites_executed":                   len(siteHit),
 		"yield_sites_where_a_switch_was_decided": len(switchSite),
-		"switches_by_site_tag": tagSwitch,
-		"probes":              probes,
-		"faults_fired":        map[string]int{"preemptions": tot.Switches, "blocked_on_once": tot.BlockedOnOnce, "preempted_inside_build": tot.PreemptInBuild},
-		"inconclusive_runs":   inconclusive,
-		"audit":               map[string]interface{}{"gomaxprocs_pairs": auditPairs, "gomaxprocs_mismatches": auditMismatch, "explicit_replay_pairs": explicitPairs, "explicit_replay_mismatches": explicitMismatch},
-		"solo_oracle_processes": g.solo.Procs,
-		"unmodelled_constructs": rep.Unmodelled,
-		"raw_violations":      len(viols),
-		"outcome_digest":      od.String(),
-		"run_budget":          map[string]interface{}{"runs_requested": maxRuns, "wall_cap_s": budget.Seconds(), "stopped_by_wall_cap": runs < maxRuns && len(viols) < 12},
-		"bounds":              "<= 8 tasks x <= 4 calls, <= 2e6 steps, no preemption inside standard-library or x/ calls (races there are still detected: detection is happens-before based)",
+		"switches_by_site_tag":                   tagSwitch,
+		"probes":                                 probes,
+		"faults_fired":                           map[string]int{"preemptions": tot.Switches, "blocked_on_once": tot.BlockedOnOnce, "preempted_inside_build": tot.PreemptInBuild},
+		"inconclusive_runs":                      inconclusive,
+		"audit":                                  map[string]interface{}{"gomaxprocs_pairs": auditPairs, "gomaxprocs_mismatches": auditMismatch, "explicit_replay_pairs": explicitPairs, "explicit_replay_mismatches": explicitMismatch},
+		"solo_oracle_processes":                  g.solo.Procs,
+		"unmodelled_constructs":                  rep.Unmodelled,
+		"raw_violations":                         len(viols),
+		"outcome_digest":                         od.String(),
+		"run_budget":                             map[string]interface{}{"runs_requested": maxRuns, "wall_cap_s": budget.Seconds(), "stopped_by_wall_cap": runs < maxRuns && len(viols) < 12},
+		"bounds":                                 "<= 8 tasks x <= 4 calls, <= 2e6 steps, no preemption inside standard-library or x/ calls (races there are still detected: detection is happens-before based)",
 	}
 	if err := e.WriteEvidence("C12", "exploration", cov, []string{
 		"the Go race detector is sound for what it reports and incomplete (bounded shadow history)",
